@@ -36,9 +36,12 @@ func MakeToFunc(wantTy cty.Type) function.Function {
 			},
 		},
 		Type: func(args []cty.Value) (cty.Type, error) {
+			// The result is a value, whose type never carries the
+			// optional-attribute annotations a conversion target may have.
+			retTy := wantTy.WithoutOptionalAttributesDeep()
 			gotTy := args[0].Type()
 			if gotTy.Equals(wantTy) {
-				return wantTy, nil
+				return retTy, nil
 			}
 			conv := convert.GetConversionUnsafe(args[0].Type(), wantTy)
 			if conv == nil {
@@ -54,12 +57,12 @@ func MakeToFunc(wantTy cty.Type) function.Function {
 				}
 			}
 			// If a conversion is available then everything is fine.
-			return wantTy, nil
+			return retTy, nil
 		},
 		Impl: func(args []cty.Value, retType cty.Type) (cty.Value, error) {
 			// We didn't set "AllowUnknown" on our argument, so it is guaranteed
 			// to be known here but may still be null.
-			ret, err := convert.Convert(args[0], retType)
+			ret, err := convert.Convert(args[0], wantTy)
 			if err != nil {
 				// Because we used GetConversionUnsafe above, conversion can
 				// still potentially fail in here. For example, if the user
